@@ -66,8 +66,21 @@ class Shapes:
         self.notkind: Dict[Term, Set[str]] = {}
         self.dep: Dict[Tuple[Term, Term], bool] = {}   # (atom, variable/alias term) -> contains_reference
         self.other: List[Tuple[Term, bool]] = []
+        self.options: Dict[Term, List[Set[str]]] = {}
+
+    def _settle(self):
+        for base, opts in self.options.items():
+            for o in opts:
+                left = o - self.notkind.get(base, set())
+                if len(left) == 1 and base not in self.kind:
+                    self.kind[base] = next(iter(left))
 
     def read(self, g: Term, pol: bool):
+        self._read(g, pol)
+        if self.options:
+            self._settle()
+
+    def _read(self, g: Term, pol: bool):
         # conjunctions under positive polarity / disjunctions under negative polarity split
         if isinstance(g, Op) and g.op == 'and' and pol:
             k = self._kind_test(g)
@@ -105,19 +118,30 @@ class Shapes:
                 self.notkind.setdefault(canon(g.args[0].base), set()).add(k)
             return
         if isinstance(g, Call) and call_name(g) == 'contains_reference' and len(g.args) == 1:
-            self.dep[(canon(call_recv(g)), canon(g.args[0]))] = pol
+            self.dep[self._dep_key(g)] = pol
             self._propagate()
             return
         if isinstance(g, Op) and g.op == 'or' and not pol:
             for a in g.args:
                 self.read(a, False)
             return
+        if isinstance(g, Op) and g.op == 'or' and pol:
+            kts = [self._kind_test(a) if isinstance(a, Op) and a.op == 'and' else None for a in g.args]
+            if all(kts) and len({canon(k[0]) for k in kts}) == 1:
+                # one of several kinds: decided once the others are excluded
+                self.options.setdefault(canon(kts[0][0]), []).append({k[1] for k in kts})
+                self._settle()
+                return
         self.other.append((g, pol))
         self._propagate()
 
     def _dep_key(self, t: Term):
         if isinstance(t, Call) and call_name(t) == 'contains_reference' and len(t.args) == 1:
-            return (canon(call_recv(t)), canon(t.args[0]))
+            rc = call_recv(t)
+            # a freshly built unary operator mentions exactly what its operand mentions (rule S3: the query covers every child slot)
+            while isinstance(rc, New) and rc.cls == 'HplUnaryOperator' and rc.get('operand') is not None:
+                rc = rc.get('operand')
+            return (canon(rc), canon(t.args[0]))
         return None
 
     def _propagate(self):
@@ -392,11 +416,34 @@ def show(f, atoms) -> str:
     return str(f)
 
 
+REWRITE_UNITS = ('_refactor_ref_pred', '_refactor_ref_expr', '_split_ref_quantifier', '_split_ref_operator', '_split_ref_negation',
+                 '_canonical_form_safety', '_canonical_form_liveness', '_canonical_form_scopes',
+                 '_split_and_expr', '_and_presplit_transform', '_split_and_not', '_split_and_quantifier')
+
+
 def rewrite_eval(ctx: Ctx) -> Evaluator:
     def build():
+        mod = ctx.model.module('hpl.rewrite', 'rewrite_eval')
+        calls = {f.name: {x.id for x in ast.walk(f.node) if isinstance(x, ast.Name) and x.id in mod.functions} for f in mod.functions.values()}
+
+        def recursive(name: str) -> bool:
+            seen, todo = set(), list(calls.get(name, ()))
+            while todo:
+                x = todo.pop()
+                if x == name:
+                    return True
+                if x not in seen:
+                    seen.add(x)
+                    todo.extend(calls.get(x, ()))
+            return False
+
         def pol(fi: FunctionInfo, depth: int) -> bool:
-            if fi.module.name == 'hpl.rewrite' and (fi.name.startswith(('_split', '_and_pre', '_refactor', '_simplify', 'get_', '_canonical', '_obvious')) or fi.name in ('split_and', 'simplify', 'empty_test', 'refactor_reference', 'canonical_form', 'true', 'false')):
+            if fi.module.name == 'hpl.rewrite' and (fi.name.startswith(('_simplify', 'get_', '_obvious')) or fi.name in ('split_and', 'simplify', 'empty_test', 'refactor_reference', 'canonical_form', 'true', 'false')):
                 return False
+            if fi.module.name == 'hpl.rewrite' and fi.name.startswith(('_split', '_and_pre', '_refactor', '_canonical')):
+                # the units the rules analyse one by one stay calls; a helper carved out of one of them is looked through
+                if fi.name in REWRITE_UNITS or recursive(fi.name):
+                    return False
             return default_inline(fi, depth)
         return Evaluator(ctx.model, inline=pol)
     return ctx.memo('rewrite_eval', build)
